@@ -201,7 +201,7 @@ pub fn build(p: CP) -> Scenario<Arc<CS>> {
     };
     Scenario {
         name: p.name.to_string(),
-        opts: Opts { stale_reads: false, stale_depth: 2, max_spurious: 0, horizon: 60_000, log_ops: false, log_handler_ops: false, reduce: false, no_discipline: false, nest_value_t1: 0 },
+        opts: Opts { stale_reads: false, stale_depth: 2, max_spurious: 0, horizon: 60_000, log_ops: false, log_handler_ops: false, reduce: true, no_discipline: false, nest_value_t1: 0 },
         signals: vec![S1, S2],
         setup: Box::new(setup),
         threads: vec![m, d],
@@ -229,18 +229,18 @@ pub fn scenarios(tier: Tier) -> Vec<Item> {
             let name: &'static str = Box::leak(format!("all_actions_vs_{}{}", mname, if full { "_fullpipes" } else { "" }).into_boxed_str());
             v.push(item(
                 build(CP { name, full_pipes: full, mutator: mi as u8, deliveries: 2, bound_steps: if mi == 1 { steps + 2 } else { steps }, prefill_deliveries: 0 }),
-                b(1, 2),
+                b(2, 3),
                 "every built-in action installed; deliveries from another thread and nested (up to 2 deep in time) at every operation boundary of the mutator",
             ));
         }
     }
-    // the iterators' own self-pipes completely full (nobody drained 1500 earlier deliveries)
+    // the iterators' own self-pipes completely full (nobody drained 400 earlier deliveries; the socket buffer holds 278)
     for (mi, mname) in [(0u8, "registry"), (2u8, "scans_and_recv")] {
         let name: &'static str = Box::leak(format!("selfpipes_full_vs_{}", mname).into_boxed_str());
         v.push(item(
-            build(CP { name, full_pipes: true, mutator: mi, deliveries: 2, bound_steps: steps, prefill_deliveries: 1500 }),
+            build(CP { name, full_pipes: true, mutator: mi, deliveries: 2, bound_steps: steps, prefill_deliveries: 400 }),
             b(1, 2),
-            "as above after 1500 undrained deliveries: the self-pipes of the three iterator instances are full as well",
+            "as above after 400 undrained deliveries: the self-pipes of the three iterator instances are full as well",
         ));
     }
     v
